@@ -213,7 +213,7 @@ func (m *c09Map) f(x int) int {
 
 // ------------------------------------------------------------------------------------- the factory
 
-var c09UIDok = []byte("verif-c09-bypass") // bypass user: authorised
+var c09UIDok = []byte("verif-c09-bypass")      // bypass user: authorised
 var c09UIDnosesh = []byte("verif-c09-nosesh")  // known to the manager, new sessions refused
 var c09UIDunknown = []byte("verif-c09-nobody") // unknown to the manager
 
@@ -273,6 +273,7 @@ type c09HelloOpt struct {
 }
 
 var c09Sid atomic.Uint32
+var c09Epoch = time.Date(2000, 1, 1, 0, 0, 0, 0, time.UTC) // the start of every synctest bubble
 
 // c09Hello runs the real client's direct-TLS handshake against a capturing connection and returns its first flight.
 func c09Hello(o c09HelloOpt) []byte {
@@ -290,8 +291,10 @@ func c09Hello(o c09HelloOpt) []byte {
 	raw := client.RawConfig{ServerName: o.Name, ProxyMethod: o.Method, EncryptionMethod: "plain", UID: o.UID,
 		PublicKey: ecdh.Marshal(pub), NumConn: 1, LocalHost: "127.0.0.1", LocalPort: "1984", RemoteHost: "127.0.0.1",
 		RemotePort: "443", BrowserSig: o.Browser, Transport: "direct"}
+	// every bubble starts at the same instant (c09Epoch, checked in c09Run): hellos sealed for that instant are fresh
+	// in any bubble, so streams can be built outside and saved scenarios stay valid
 	skew := o.Skew
-	world := common.WorldState{Rand: rand.Reader, Now: func() time.Time { return time.Now().Add(skew) }}
+	world := common.WorldState{Rand: rand.Reader, Now: func() time.Time { return c09Epoch.Add(skew) }}
 	_, remote, auth, err := raw.ProcessRawConfig(world)
 	if err != nil {
 		panic(err)
@@ -443,7 +446,7 @@ func c09Concretise(b *c09Behaviour, rng *kit.Rng, variant int) (*c09Scenario, er
 		if n > 2 {
 			n = c09Buf + 1 + rng.Intn(2000)
 			if variant%2 == 1 {
-				n = 3 + rng.Intn(500)
+				n = cs.Total + rng.Intn(500)
 			}
 		}
 		full = append([]byte{first}, rng.Bytes(n-1)...)
@@ -514,7 +517,7 @@ func c09Concretise(b *c09Behaviour, rng *kit.Rng, variant int) (*c09Scenario, er
 			}
 			req := c09GetSized(0, hidden, rng)
 			if cs.Content == "none" && variant%4 == 3 {
-				req = []byte("G\r\n") // the shortest thing readFirstPacket takes for a complete request
+				req = []byte("Gx\n\r\n") // nearly the shortest complete request ("G\r\n" itself is in the explored corpus)
 			}
 			full = append(req, trail...)
 			m.add(1, 1)
@@ -671,7 +674,7 @@ func c09NewState(d common.Dialer, proxy common.Dialer) *State {
 	var arr [16]byte
 	copy(arr[:], c09UIDok)
 	return &State{
-		ProxyBook:   map[string]net.Addr{"echo": c10AddrC09("echo")},
+		ProxyBook:   map[string]net.Addr{"echo": c09Addr("echo")},
 		ProxyDialer: proxy,
 		WorldState:  common.WorldState{Rand: rand.Reader, Now: time.Now},
 		BypassUID:   map[[16]byte]struct{}{arr: {}},
@@ -689,10 +692,10 @@ func c09NewState(d common.Dialer, proxy common.Dialer) *State {
 	}
 }
 
-type c10AddrC09 string
+type c09Addr string
 
-func (a c10AddrC09) Network() string { return "vnet" }
-func (a c10AddrC09) String() string  { return string(a) }
+func (a c09Addr) Network() string { return "vnet" }
+func (a c09Addr) String() string  { return string(a) }
 
 type c09Snapshot struct {
 	Step       int    `json:"step"`
@@ -730,6 +733,9 @@ func c09Run(t *testing.T, sc *c09Scenario) (res c09Result) {
 		}
 	}
 	synctest.Test(t, func(t *testing.T) {
+		if d := time.Since(c09Epoch); d < 0 || d > time.Second {
+			t.Fatalf("the bubble does not start at %v (now %v): sealed timestamps would be stale", c09Epoch, time.Now())
+		}
 		vn, tn := kit.NewVNet(), kit.NewVNet()
 		tgt := &c09Target{}
 		dialer := &c09Dialer{tn: tn, sc: sc, tgt: tgt}
@@ -759,7 +765,6 @@ func c09Run(t *testing.T, sc *c09Scenario) (res c09Result) {
 		peer := link.End(0)
 		var pmu sync.Mutex
 		var peerRecv []byte
-		peerEOF := false
 		go func() {
 			buf := make([]byte, 70000)
 			for {
@@ -767,7 +772,6 @@ func c09Run(t *testing.T, sc *c09Scenario) (res c09Result) {
 				pmu.Lock()
 				peerRecv = append(peerRecv, buf[:n]...)
 				if err != nil {
-					peerEOF = true
 					pmu.Unlock()
 					return
 				}
@@ -897,7 +901,7 @@ func c09Run(t *testing.T, sc *c09Scenario) (res c09Result) {
 				if snap.ExpNp < 0 && snap.Np == 0 {
 					d = append(d, "peer has no reply, model accepts")
 				}
-				if e.PeerOpen == srvClosed {
+				if e.PeerOpen == srvClosed && e.Outcome != "accept" {
 					d = append(d, fmt.Sprintf("server closed the peer connection: %v, model peerOpen: %v", srvClosed, e.PeerOpen))
 				}
 				if len(d) > 0 {
@@ -963,18 +967,22 @@ type c09Pool struct {
 	inflight map[int]any
 	started  map[int]time.Time
 	drift    atomic.Int64
+	marked   bool
 }
 
 func (p *c09Pool) begin(w int, desc any) {
 	p.mu.Lock()
 	p.inflight[w] = desc
 	p.started[w] = time.Now()
-	all := make([]any, 0, len(p.inflight))
-	for _, d := range p.inflight {
-		all = append(all, d)
-	}
+	first := !p.marked
+	p.marked = true
 	p.mu.Unlock()
-	p.res.SetRunning(map[string]any{"in_flight": all}, true)
+	if first {
+		p.res.SetRunning(map[string]any{"in_flight": "see running_w*.json"}, true)
+	}
+	// one small file per worker (persisting all of them in result.json before every scenario would cost more than the scenarios)
+	b, _ := json.Marshal(desc)
+	_ = os.WriteFile(fmt.Sprintf("%s/running_w%d.json", kit.OutDir(), w), b, 0o644)
 }
 
 func (p *c09Pool) end(w int) {
@@ -1029,8 +1037,12 @@ func (p *c09Pool) record(sc *c09Scenario, r c09Result, family string, nontrivial
 	res.Count(sig, nontrivial)
 	res.Stat("runs:"+family, 1)
 	res.Stat("outcome:"+r.Outcome, 1)
+	seenObs := map[string]bool{}
 	for _, o := range r.Obs {
-		res.Stat("obs:"+o, 1)
+		if !seenObs[o] {
+			seenObs[o] = true
+			res.Stat("obs:"+o, 1) // once per scenario
+		}
 	}
 	if r.Key != "" {
 		res.Violate(r.Key, r.What+" ["+sc.Label+"]", map[string]any{"scenario": sc, "family": family, "table": r.Snaps})
